@@ -281,6 +281,7 @@ func (m *Manager) Remove(fid uint32) error {
 	}
 	m.maxFid = maxID
 
+	var takesOver *segment
 	if fid == m.activeID {
 		if len(m.files) == 0 {
 			m.active = nil
@@ -293,11 +294,26 @@ func (m *Manager) Remove(fid uint32) error {
 				if size := m.active.store.Size(); size >= 0 {
 					m.offset = uint32(size)
 				}
+				takesOver = m.active
 			}
 		}
 	}
 	m.refreshIndexLocked()
 	m.filesLock.Unlock()
+
+	if takesOver != nil && takesOver.isSealed() {
+		// The previous segment becomes the active one again (as in Rewind). Readers of a sealed
+		// segment only pin it, while appends grow and remap the active one: wait the pinned
+		// readers out and make later ones take the store lock, or an append pulls the mapping
+		// away under a reader.
+		takesOver.beginClose()
+		takesOver.waitForNoPins()
+		reopenErr := takesOver.store.SetWritable()
+		takesOver.activate()
+		if reopenErr != nil {
+			return reopenErr
+		}
+	}
 
 	seg.beginClose()
 	if seg.isSealed() {
